@@ -269,7 +269,7 @@ static void e2eSession(vh::Rng& r, int integ) {
             lastAdv = I.getAdvancedTime();
             for (size_t j = 0; j < ws.size(); ++j) {
                 const int sNew = sgn(wval(ws[j], lastAdv, I.getAdvancedState().getQ()[0]));
-                if (advSign[j] != 0 && sNew != advSign[j] && (ws[j].mask & (advSign[j] == 1 ? 1 : 2))) nChange[j]++;
+                if (advSign[j] != 0 && sNew != advSign[j] && (ws[j].mask & (advSign[j] == 1 ? 1 : 2))) { nChange[j]++; if (std::getenv("C22_DEBUG") && ws[j].kind == 2) std::fprintf(stderr, "  CHANGE j=%zu at adv=%.12f sign %d -> %d\n", j, lastAdv, advSign[j], sNew); }
                 advSign[j] = sNew;
             }
         }
@@ -337,8 +337,10 @@ static void e2eSession(vh::Rng& r, int integ) {
     }
     for (size_t k2 = 0; k2 < wins.size(); ++k2) for (size_t i = 0; i < used[k2].size(); ++i) if (!used[k2][i] && ws[wins[k2].idx[i]].kind != 2) spurious += 1;
     // state-dependent witnesses: monitored sign changes between consecutive step ends vs reported events (the last may be pending)
-    double stateBad = 0;
-    for (size_t j = 0; j < ws.size(); ++j) if (ws[j].kind == 2) { if (nReported[j] > nChange[j] || nReported[j] + 1 < nChange[j]) stateBad = 1 + std::abs(nReported[j] - nChange[j]); }
+    double stateBad = 0, stateRetrig = 0;
+    for (size_t j = 0; j < ws.size(); ++j) if (ws[j].kind == 2) { if (nReported[j] + 1 < nChange[j]) stateBad = nChange[j] - nReported[j];      // a monitored sign change between step ends was never reported
+        if (nReported[j] > nChange[j]) stateRetrig = nReported[j] - nChange[j];                                                         // more events than sign changes: the same crossing triggered again
+        if (std::getenv("C22_DEBUG")) std::fprintf(stderr, "STATEWIT j=%zu c=%.6g mask=%d reported=%d changes=%d\n", j, ws[j].a, ws[j].mask, nReported[j], nChange[j]); }
     // a session is itself a record (so its P lines have an I line to attach to)
     vh::Line L = vh::I("sess"); L.s(nm).i(ncross).i((long long)wins.size()).s(g_tag); L.emit();
     vh::O("sess").i(1).emit();
@@ -350,6 +352,7 @@ static void e2eSession(vh::Rng& r, int integ) {
     vh::P("only_real_crossings_listed", fam + ".e2e.spurious", spurious, 0);
     if (stateWit) {
         vh::P("state_witness_sign_changes_all_reported", fam + ".e2e.state_witness", stateBad, 0);
+        vh::P("state_witness_crossing_reported_once", fam + ".e2e.state_witness_retrigger", stateRetrig, 0);
         // the trigger evaluated on the HANDED-OUT before-state (tLow) and advanced state (tHigh) changes sign in the reported direction
         vh::P("state_witness_changes_sign_across_returned_states", fam + ".e2e.state_witness_bracket", worstStateBracket, 0);
     }
